@@ -164,14 +164,6 @@ Proof. intros H. rewrite <- (app_nil_r w). rewrite lstrip_ws_app by exact H. ref
 Lemma lstrip_len s : length (lstrip is_ws s) <= length s.
 Proof. induction s as [|c s IH]; simpl; [lia|]. destruct (is_ws c); simpl; lia. Qed.
 
-Lemma app_split_len {T} (a : list T) : forall b c d, a ++ b = c ++ d -> length a <= length c ->
-  exists q, c = a ++ q /\ b = q ++ d.
-Proof.
-  induction a as [|x a IH]; intros b c d E L; simpl in *.
-  - exists c. auto.
-  - destruct c as [|y c]; simpl in *; [lia|]. injection E as -> E.
-    destruct (IH b c d E ltac:(lia)) as (q & -> & ->). exists q. auto.
-Qed.
 
 Lemma file_nil docs : Forall good docs -> file_of docs = [] -> docs = [].
 Proof.
